@@ -27,7 +27,11 @@ import time
 from vlib import core
 
 FORMATS = ("jsonschema", "openapi", "cue")
-FMT_LETTER = {"jsonschema": "j", "openapi": "o", "cue": "c"}
+FMT_LETTER = {"jsonschema": "j", "openapi": "o", "cue": "c", "kind": "k"}
+# "kind": the same schema as a composable DataQuery KIND (kindsys_composable input): its root struct becomes the object
+# `dataquery` implementing the dataquery VARIANT - the only route to dataquery_equality_method.tmpl and the variant code paths
+FORMATS_WITH_KIND = FORMATS + ("kind",)
+KIND_ROOT = "Dataquery"
 GO_FLAGS_FULL = {"generate_json_marshaller": True, "generate_strict_unmarshaller": True,
                  "generate_equal": True, "generate_validate": True}
 MODULE = "genmod"
@@ -738,7 +742,30 @@ def render_cue(schema, package):
     return head + "\n\n".join(c.hoisted + bodies) + "\n"
 
 
+def render_kind(schema, package):
+    """Composable DataQuery kind: `package grafanaplugin`, the root struct's fields are the lineage schema, the other
+    definitions are definitions inside it."""
+    if has_second_package(schema):
+        raise NotExpressible("two packages: not rendered as a kind")
+    c = _Cue()
+    c.defs = defs_of(schema)
+    root = [d for d in schema["defs"] if d["name"] == schema["root"]][0]
+    if root["t"]["k"] != "struct":
+        raise NotExpressible("kind: the root is not a struct")
+    body = c.ty(root["t"]).strip()[1:-1].strip("\n")            # the field lines of the root struct
+    others = ["#%s: %s" % (d["name"], c.ty(d["t"])) for d in schema["defs"] if d["name"] != schema["root"]]
+    inner = "\n".join([body] + ["\t" + x.replace("\n", "\n\t") for x in c.hoisted + others])
+    inner = inner.replace("\n", "\n\t")
+    head = "package grafanaplugin\n\n"
+    if c.imports:
+        head += "import (\n%s)\n\n" % "".join('\t"%s"\n' % i for i in sorted(c.imports))
+    name = package[0].upper() + package[1:]
+    return head + 'name: "%sDataQuery"\nschemaInterface: "DataQuery"\nlineage: schemas: [{\n\tversion: [0, 0]\n\tschema: {\n\t%s\n\t}\n}]\n' % (name, inner)
+
+
 def render(schema, fmt, package):
+    if fmt == "kind":
+        return render_kind(schema, package)
     if fmt == "jsonschema":
         return render_jsonschema(schema)
     if fmt == "openapi":
@@ -895,6 +922,8 @@ def pkg_name(sid, fmt):
 def pipeline_yaml(fmt, path, package, go_flags, extra_languages=(), aux=()):
     if fmt == "cue":
         inp = "  - cue:\n      entrypoint: '%s'\n      package: %s\n" % (path, package)
+    elif fmt == "kind":
+        inp = "  - kindsys_composable:\n      entrypoint: '%s'\n      package: %s\n" % (path, package)
     else:
         inp = "  - %s:\n      path: '%s'\n      package: %s\n" % (fmt, path, package)
     for apath, apkg in aux:
@@ -940,7 +969,8 @@ def generate(ctx, batch, go_flags=None, extra_languages=(), formats=FORMATS):
         schema = batch.cat[sid]["schema"]
         for fmt in formats:
             pkg = pkg_name(sid, fmt)
-            u = {"id": sid, "fmt": fmt, "pkg": pkg, "status": "pending", "type": pkg + "." + schema["root"]}
+            u = {"id": sid, "fmt": fmt, "pkg": pkg, "status": "pending",
+                 "type": pkg + "." + (KIND_ROOT if fmt == "kind" else schema["root"])}
             batch.units[pkg] = u
             try:
                 text = render(schema, fmt, pkg)
@@ -952,7 +982,9 @@ def generate(ctx, batch, go_flags=None, extra_languages=(), formats=FORMATS):
                 batch.stats["not_expressible"] += 1
                 continue
             u["text"] = text
-            if fmt == "cue":
+            if fmt == "kind":
+                u["ref_text"] = render_cue(schema, pkg)     # what the CUE reference validator judges the documents against
+            if fmt in ("cue", "kind"):
                 d = os.path.join(inputs, pkg)
                 os.makedirs(d)
                 open(os.path.join(d, pkg + ".cue"), "w").write(text)
@@ -1001,8 +1033,49 @@ def generate(ctx, batch, go_flags=None, extra_languages=(), formats=FORMATS):
             else:
                 u["status"] = "generated"
                 u["files"] = r["files"]
+    _supply_variants(batch, gen)
     batch.timing["generate_s"] = round(time.time() - t0, 2)
     return batch
+
+
+_VARIANTS_STUB = """// Supplied by the verification harness, NOT generated by cog: at this commit cog's Go runtime jenny does not emit the
+// `cog/variants` package that dataquery_equality_method.tmpl refers to (it lives in the foundation-sdk templates, whose
+// submodule is empty here). This is the minimal interface the emitted code needs.
+package variants
+
+type Dataquery interface {
+	ImplementsDataqueryVariant()
+	Equals(other Dataquery) bool
+}
+"""
+
+
+def _supply_variants(batch, gen):
+    """Kind units: the emitted `Equals(otherCandidate variants.Dataquery)` names a package cog neither imports nor emits.
+    The harness adds the import line and a minimal `cog/variants` package (both listed in the evidence, C02's defect)."""
+    kinds = [u for u in batch.units.values() if u["fmt"] == "kind" and u["status"] == "generated"]
+    if not kinds:
+        return
+    d = os.path.join(gen, "go", "cog", "variants")
+    if not os.path.exists(os.path.join(d, "variants.go")):
+        os.makedirs(d, exist_ok=True)
+        open(os.path.join(d, "variants.go"), "w").write(_VARIANTS_STUB)
+        batch.stats["variants_package_supplied"] = 1
+    imp = '%s/go/cog/variants' % MODULE
+    for u in kinds:
+        p = os.path.join(gen, "go", u["pkg"], "types_gen.go")
+        if not os.path.exists(p):
+            continue
+        src = open(p).read()
+        if "variants." in src and imp not in src:
+            m = re.search(r"^import \(\n", src, re.M)
+            if m:
+                src = src[:m.end()] + '\tvariants "%s"\n' % imp + src[m.end():]
+            else:
+                src = re.sub(r"^(package \w+\n)", r'\1\nimport variants "%s"\n' % imp, src, count=1, flags=re.M)
+            open(p, "w").write(src)
+            u["variants_import_added"] = True
+            batch.stats["variants_import_added"] += 1
 
 
 _DIAG = re.compile(r"^(go/([^/\s]+)/[^:\s]+):(\d+):(\d+): (.*)$")
@@ -1181,7 +1254,7 @@ def ref_validate(ctx, batch, items):
     by_fmt = collections.defaultdict(list)
     for pkg, docs in items:
         u = batch.units[pkg]
-        by_fmt[u["fmt"]].append((pkg, docs))
+        by_fmt["cue" if u["fmt"] == "kind" else u["fmt"]].append((pkg, docs))
     out = {}
     # JSON Schema: python jsonschema (Draft7) in one subprocess
     js = by_fmt.get("jsonschema", [])
@@ -1208,16 +1281,15 @@ def ref_validate(ctx, batch, items):
             for pkg, docs in go_items:
                 u = batch.units[pkg]
                 schema = batch.cat[u["id"]]["schema"]
-                if u["fmt"] == "cue":
+                if u["fmt"] in ("cue", "kind"):
                     S = defs_of(schema)
                     raw = "[" + ",".join(cue_doc_text(S, S[schema["root"]], x) for x in docs) + "]"
-                    # strip the package clause: CompileString evaluates a single anonymous file
-                    text = u["text"]
+                    text = u.get("ref_text") or u["text"]
                 else:
                     raw = json.dumps(docs)
                     text = u["text"]
                 f.write('{"id":%s,"fmt":%s,"schema":%s,"path":%s,"root":%s,"docs":%s}\n' % (
-                    json.dumps(pkg), json.dumps(u["fmt"]), json.dumps(text), json.dumps(u.get("path", "")), json.dumps(schema["root"]), raw))
+                    json.dumps(pkg), json.dumps("cue" if u["fmt"] == "kind" else u["fmt"]), json.dumps(text), json.dumps(u.get("path", "")), json.dumps(schema["root"]), raw))
         ctx.run_worker(["sem-validate"], stdin_path=inp, stdout_path=outp, timeout=1800)
         for line in open(outp):
             r = json.loads(line)
@@ -1619,9 +1691,10 @@ class TraceWriter:
                      "reaccepted": o["reaccepted"] is not False}})
         return True
 
-    def add_eq(self, pkg, key, encs, m):
+    def add_eq(self, pkg, key, encs, m, nil_eq=(), foreign_eq=()):
         u = self.batch.units[pkg]
-        self.add(key, {"kind": "eq", "si": self.si(u["id"]), "pkg": pkg, "encs": [py_to_jv(e) for e in encs], "m": m})
+        self.add(key, {"kind": "eq", "si": self.si(u["id"]), "pkg": pkg, "encs": [py_to_jv(e) for e in encs], "m": m,
+                       "nilEq": list(nil_eq), "foreignEq": list(foreign_eq)})
 
     SHARD = 40000
 
@@ -1744,7 +1817,7 @@ def vacuity_gate(ctx, vac, what="vacuous clauses / position classes (never exerc
 def docs_check(ctx, pid, clauses, assumptions, must=(), go_flags=None):
     replay = None
     select = None
-    formats = FORMATS
+    formats = FORMATS_WITH_KIND
     deep = not ctx.quick()
     extra = None
     if ctx.replay:
@@ -1862,7 +1935,7 @@ def docs_check(ctx, pid, clauses, assumptions, must=(), go_flags=None):
             need = ["accepted", "roundtrip"] + (["reaccept"] if "ReAccept" in clauses else [])
         vac += [k for k in need if per_clause[k] == 0]
         vac += ["position:" + p for p in POSITION_CLASSES if per_pos[p] == 0]
-        vac += ["format:" + f for f in FORMATS if per_fmt[f] == 0]
+        vac += ["format:" + f for f in FORMATS_WITH_KIND if per_fmt[f] == 0]
         vacuity_gate(ctx, vac)
         judged = sum(per_label.values())
         if n_docs and disagree > MAX_DISAGREE * n_docs:
